@@ -128,7 +128,7 @@ def run(rep, tier):
                 "%d seeded random orbits of 4-7 leaf expressions. Non-trivial = the conversion returned an equation and the contract, the "
                 "checker replay and the exact value clause (polynomial / truth table) were evaluated, or an orbit with at least two members "
                 "of one class was compared; distinct by full event content."
-                % (("3 leaves / 3 members / size 9", 30, "half of them", 6, 4, 40) if quick else ("4 leaves / 4 members / size 11", 100, "all", 7, 2, 1000)))
+                % (("3 leaves / 3 members / size 9", 24, "a quarter of them", 6, 4, 40) if quick else ("4 leaves / 4 members / size 11", 100, "all", 7, 2, 1000)))
     rep.assumptions = ["formal polynomial identity over variable atoms = equality of the denoted functions on nat / int / real (infinite domains); "
                        "with opaque atoms (truncated subtraction) a difference is only a divergence",
                        "canonicity and idempotence are demanded of nat.norm_full, real.real_norm_conv, auto.auto_conv (reals), proplogic.norm_full / "
@@ -175,7 +175,7 @@ def run(rep, tier):
         rep.notes["term_universe"] = " ".join(r2.out[r2.out.find('<< "terms"'):].split(">>")[0].replace("<<", "").split())
     # ---- spec -> code: one driver process (theories loaded once), forked workers
     allp = wd / "events.ndjson"
-    arith_mod, int_mod, comb_mod, nrand, cap = (1, 2, 4, 40, 30) if quick else (1, 1, 2, 1000, 100)
+    arith_mod, int_mod, comb_mod, nrand, cap = (1, 4, 4, 40, 24) if quick else (1, 1, 2, 1000, 100)
     p, _ = run_driver("c10", ["all", dump_file, vec, allp, 3 if quick else 4, arith_mod, int_mod, comb_mod, nrand, seed(), cap], timeout=6000)
     rep.notes["driver"] = p.stdout.strip().splitlines()[-5:]
     phase("driver")
